@@ -20,6 +20,7 @@ package verifharness
 //   evmset name rev h | raw key c|s|<hex> | dump | ihash fam | iseq | icons | iclients | tmpt name | tmasc name
 //   bscasc name | ethasc name
 //   bypath-get src dst | bypath-iter src dst     (GetAllPacketCommitmentsByPath / IteratePacketCommitmentByPath)
+//   pget fam src dst seq | phas fam src dst seq | nget src dst    (point getters Get* / Has* after Set*)
 //   grpc commit|ack src dst                      (query server PacketCommitments / PacketAcknowledgements)
 
 import (
@@ -103,7 +104,7 @@ func (w *c19World) reset() {
 	w.kinds = map[string]string{}
 	w.hist = nil
 	w.dirty = false
-	w.written = map[string]map[string]string{"commit": {}, "ack": {}, "receipt": {}, "seq": {}}
+	w.written = map[string]map[string]string{"commit": {}, "ack": {}, "receipt": {}, "relayer": {}, "seq": {}}
 	w.cons = map[string]bool{}
 	w.clients = map[string]bool{}
 	w.tmH = map[string][]([2]uint64){}
@@ -753,6 +754,116 @@ func (w *c19World) apply(r *Rec, op string) string {
 		r.Nontrivial(strings.Join(w.hist, ";"))
 		return c19OkList(out)
 
+	case "pget", "phas", "nget":
+		pk := w.app.XIBCKeeper.PacketKeeper
+		var out, fn, fam, wkey string
+		var src, dst string
+		pan, msg := safely(func() {
+			if f[0] == "nget" {
+				src, dst = string(unhx(f[1])), string(unhx(f[2]))
+				fn, fam, wkey = "GetNextSequenceSend", "seq", f[1]+":"+f[2]
+				out = strconv.FormatUint(pk.GetNextSequenceSend(w.ctx, src, dst), 10)
+				return
+			}
+			fam = f[1]
+			src, dst = string(unhx(f[2])), string(unhx(f[3]))
+			seq := c19U64(f[4])
+			wkey = f[2] + ":" + f[3] + ":" + f[4]
+			some := func(bz []byte, ok bool) string {
+				if !ok {
+					return "none"
+				}
+				return "some " + w.kindOf(bz)
+			}
+			if f[0] == "pget" {
+				switch fam {
+				case "commit":
+					fn = "GetPacketCommitment"
+					bz := pk.GetPacketCommitment(w.ctx, src, dst, seq)
+					out = some(bz, bz != nil)
+				case "ack":
+					fn = "GetPacketAcknowledgement"
+					out = some(pk.GetPacketAcknowledgement(w.ctx, src, dst, seq))
+				case "receipt":
+					fn = "GetPacketReceipt"
+					v, ok := pk.GetPacketReceipt(w.ctx, src, dst, seq)
+					out = some([]byte(v), ok)
+				case "relayer":
+					fn = "GetPacketRelayer"
+					v := pk.GetPacketRelayer(w.ctx, src, dst, seq)
+					out = some([]byte(v), v != "")
+				default:
+					r.t.Fatalf("bad op %q", op)
+				}
+			} else {
+				var ok bool
+				switch fam {
+				case "commit":
+					fn = "HasPacketCommitment"
+					ok = pk.HasPacketCommitment(w.ctx, src, dst, seq)
+				case "ack":
+					fn = "HasPacketAcknowledgement"
+					ok = pk.HasPacketAcknowledgement(w.ctx, src, dst, seq)
+				case "receipt":
+					fn = "HasPacketReceipt"
+					ok = pk.HasPacketReceipt(w.ctx, src, dst, seq)
+				default:
+					r.t.Fatalf("bad op %q", op)
+				}
+				out = "0"
+				if ok {
+					out = "1"
+				}
+			}
+		})
+		if pan {
+			r.Count("iter.panic")
+			if !w.dirty {
+				w.find(r, "C19:point-readback-panic:"+fn, "point getter panics: "+msg, "panic", "the written value")
+			}
+			return "panic"
+		}
+		// ---- oracle: the point getter returns what the setter stored for exactly this (src, dst[, sequence]) ----
+		if !w.dirty && c19ValidName(src) && c19ValidName(dst) {
+			wv, written := w.written[fam][wkey]
+			var want string
+			switch {
+			case f[0] == "nget" && written:
+				want = wv
+			case f[0] == "nget":
+				want = "1"
+			case f[0] == "phas" && written:
+				want = "1"
+			case f[0] == "phas":
+				want = "0"
+			case written:
+				want = "some " + wv
+			default:
+				want = "none"
+			}
+			r.Count("oracle.point-readback")
+			if written {
+				r.Count("point.written")
+			} else {
+				r.Count("point.absent")
+			}
+			if src != strings.ToLower(src) || dst != strings.ToLower(dst) {
+				r.Count("point.mixed-case")
+			}
+			// is a triple that differs from the queried one only in the case of letters in the store?
+			for k := range w.written[fam] {
+				if k != wkey && strings.EqualFold(c19Unhex3(k), c19Unhex3(wkey)) {
+					r.Count("point.case-sibling")
+					break
+				}
+			}
+			if out != want {
+				w.find(r, "C19:point-readback:"+fn, "a point getter does not return what the setter stored for the same (src, dst, sequence)", out, want)
+			}
+		}
+		r.Nontrivial(op + "@" + strconv.Itoa(len(w.hist)))
+		return out
+
 	case "iseq":
 		var out []string
 		var seqs []packettypes.PacketSequence
@@ -985,7 +1096,7 @@ func (g c19Gen) bytes() []byte {
 	return g.randBytes(g.n(40))
 }
 
-var c19ValidNames = []string{"abc", "teleport", "bsc-testnet", "eth", "a.b_c+d-e#f[g]<h>", strings.Repeat("n", 64), "rinkeby", "chain-1", "chain-2", "A1b", "123", "---"}
+var c19ValidNames = []string{"abc", "teleport", "bsc-testnet", "eth", "a.b_c+d-e#f[g]<h>", strings.Repeat("n", 64), "rinkeby", "chain-1", "chain-2", "A1b", "123", "---", "Abc", "ABC", "Teleport", "BSC-Testnet"}
 var c19InvalidNames = []string{"", "ab", "a/b", "a b c", strings.Repeat("n", 65), "chaîne", "/abc", "abc/", "a//b", "   ", "ab\xffc", "abc\n", "a*b", "   ", "tele/port/x"}
 
 func (g c19Gen) name(validOnly bool) string {
@@ -1299,6 +1410,99 @@ func (g c19Gen) bypathHistory(clean bool) []string {
 	return h
 }
 
+// "hex:hex:dec" -> readable text (for case-insensitive comparison)
+func c19Unhex3(k string) string {
+	p := strings.Split(k, ":")
+	for i := range p {
+		if i < 2 {
+			p[i] = string(unhx(p[i]))
+		}
+	}
+	return strings.Join(p, "\x00")
+}
+
+// valid names that differ only in the case of letters
+var c19CaseNames = [][]string{
+	{"abc", "Abc", "ABC", "aBc", "abC"},
+	{"teleport", "Teleport", "TELEPORT", "telePort"},
+	{"bsc-testnet", "BSC-Testnet", "Bsc-Testnet", "BSC-TESTNET"},
+	{"eth", "ETH", "Eth", "eTh"},
+	{"chain-a", "chain-A", "Chain-a", "CHAIN-A"},
+	{"a.b_c+d", "A.B_C+D", "a.B_c+D"},
+}
+
+// histories for point read-back: Set* then Get* / Has* for the written triples, for their case variants and for
+// triples that were never written
+func (g c19Gen) pointHistory(clean bool) []string {
+	h := []string{"reset"}
+	fa := c19CaseNames[g.n(len(c19CaseNames))]
+	fb := c19CaseNames[g.n(len(c19CaseNames))]
+	name := func(f []string) string {
+		if g.n(6) == 0 {
+			return c19ValidNames[g.n(len(c19ValidNames))]
+		}
+		return f[g.n(len(f))]
+	}
+	type trip struct {
+		fam, a, b string
+		n        uint64
+	}
+	var ts []trip
+	fams := []string{"commit", "ack", "receipt", "relayer"}
+	for i, k := 0, 2+g.n(8); i < k; i++ {
+		t := trip{fams[g.n(4)], name(fa), name(fb), c19Seqs[g.n(len(c19Seqs))]}
+		if g.n(6) == 0 {
+			t.n = g.u64()
+		}
+		ts = append(ts, t)
+		h = append(h, fmt.Sprintf("pset %s %s %s %d %s", t.fam, hxs(t.a), hxs(t.b), t.n, hx(append([]byte{1}, g.randBytes(g.n(20))...))))
+		if g.n(3) == 0 {
+			h = append(h, fmt.Sprintf("nset %s %s %d", hxs(t.a), hxs(t.b), g.u64()))
+		}
+	}
+	if !clean {
+		bad := c19InvalidNames[g.n(len(c19InvalidNames))]
+		h = append(h, fmt.Sprintf("pset commit %s %s 5 01", hxs(bad), hxs(fa[0])), fmt.Sprintf("pget commit %s %s 5", hxs(bad), hxs(fa[0])),
+			"raw "+hxs("nextSequenceSend/"+fa[0]+"/"+fb[0])+" "+[]string{"0000000000000009", "000000", "00000000000000070000"}[g.n(3)], "nget "+hxs(fa[0])+" "+hxs(fb[0]))
+	}
+	q := func(t trip) {
+		h = append(h, fmt.Sprintf("pget %s %s %s %d", t.fam, hxs(t.a), hxs(t.b), t.n))
+		if t.fam != "relayer" {
+			h = append(h, fmt.Sprintf("phas %s %s %s %d", t.fam, hxs(t.a), hxs(t.b), t.n))
+		}
+		if g.n(3) == 0 {
+			h = append(h, "nget "+hxs(t.a)+" "+hxs(t.b))
+		}
+	}
+	for _, t := range ts {
+		q(t)
+		// case variants of the written triple, another family, another sequence
+		v := t
+		v.a = fa[g.n(len(fa))]
+		q(v)
+		v = t
+		v.b = fb[g.n(len(fb))]
+		q(v)
+		if g.n(2) == 0 {
+			v = t
+			v.a, v.b = strings.ToLower(t.a), strings.ToLower(t.b)
+			q(v)
+		}
+		if g.n(3) == 0 {
+			v = t
+			v.fam = fams[g.n(4)]
+			q(v)
+		}
+		if g.n(3) == 0 {
+			v = t
+			v.n = t.n + 1
+			q(v)
+		}
+	}
+	h = append(h, "ihash commit", "ihash ack", "ihash receipt", "iseq")
+	return h
+}
+
 func TestC19(t *testing.T) {
 	r := NewRec(t, "C19")
 	defer r.Close()
@@ -1408,5 +1612,10 @@ func TestC19(t *testing.T) {
 			r.Count("bypath.hist.dirty")
 		}
 		run(g.bypathHistory(clean))
+	}
+	// 6. point read-back (Get* / Has* after Set*) over names that differ only in case
+	for i := 0; i < 60*scale; i++ {
+		clean := g.n(6) < 5
+		run(g.pointHistory(clean))
 	}
 }
